@@ -119,6 +119,10 @@ func (c *cmp) eq(a, b reflect.Value, path string) bool {
 	if a.Type() != b.Type() {
 		return c.fail(path, "type %v vs %v", a.Type(), b.Type())
 	}
+	if c.prefix && a.IsZero() {
+		// the zero value of a type is how Go spells "nothing decoded yet"
+		return true
+	}
 	if h, e := special(a, b); h {
 		if !e {
 			return c.fail(path, "%v value differs", a.Type())
@@ -314,10 +318,14 @@ func (c *cmp) slicePrefix(a, b reflect.Value, path string) bool {
 		return true
 	}
 	if isByteLike(a.Type()) {
-		// typed arrays are leaves: atomic
+		// typed arrays: the elements that were decoded must be the leading
+		// elements of the full array, unchanged
+		if a.Len() > b.Len() {
+			return c.fail(path, "partial typed array has %d elements, full has %d", a.Len(), b.Len())
+		}
 		f := c.full()
-		if !f.eq(a, b, path) {
-			return c.fail(path, "typed array is a leaf and must be whole: %s", f.why)
+		if !f.eq(a, b.Slice(0, a.Len()), path) {
+			return c.fail(path, "typed array elements differ: %s", f.why)
 		}
 		return true
 	}
@@ -340,10 +348,18 @@ func (c *cmp) arrayPrefix(a, b reflect.Value, path string) bool {
 		if f.eq(a, b, path) {
 			return true
 		}
-		if a.IsZero() {
-			return true
+		// decoded leading elements followed by zero values only
+		k := a.Len()
+		for k > 0 && a.Index(k-1).IsZero() {
+			k--
 		}
-		return c.fail(path, "typed array is a leaf: %s", f.why)
+		for i := 0; i < k; i++ {
+			g := c.full()
+			if !g.eq(a.Index(i), b.Index(i), fmt.Sprintf("%s[%d]", path, i)) {
+				return c.fail(path, "typed array element differs: %s", g.why)
+			}
+		}
+		return true
 	}
 	// decoded prefix followed by zero values only
 	n := a.Len()
